@@ -494,6 +494,14 @@ func (p *parser) ToASCII(src string, beStrict bool) (string, error) {
 	if a == "" {
 		return "", fmt.Errorf("idna toAscii returned empty string")
 	}
+	// An ACE label whose Punycode decodes to plain ASCII is replaced by that ASCII text, which can
+	// itself start with the ACE prefix without being valid (xn--xn---- becomes xn---). Such a
+	// result could not be parsed again, so it is not a usable host.
+	if err == nil && a != src && strings.Contains(a, "xn--") {
+		if b, err := idnaProfile.ToASCII(a); err != nil || b != a {
+			return a, fmt.Errorf("idna toAscii result '%s' is not a valid domain", a)
+		}
+	}
 	return a, nil
 }
 
